@@ -28,6 +28,11 @@ class PathAbort(BaseException):
     """The current path is infeasible / abandoned."""
 
 
+class ReplayDiverged(RuntimeError):
+    """Re-executing the function under the same decisions took other decisions: the code under test is not a function
+    of its inputs (it remembers something between executions -- a cache, a memo, a module-level table)."""
+
+
 class Inconclusive(BaseException):
     """Solver said unknown, or a budget was exceeded. Never success."""
 
@@ -243,7 +248,7 @@ class Ctx:
         if i < len(self._prefix):
             choice = self._prefix[i]
             if not isinstance(choice, bool):
-                raise RuntimeError('replay misaligned: expected bool decision')
+                raise ReplayDiverged('replay misaligned: expected bool decision')
             self._record(choice, cond if choice else ncond)
             return choice
         # literal already on the path?
@@ -280,7 +285,7 @@ class Ctx:
         if i < len(self._prefix):
             choice = self._prefix[i]
             if isinstance(choice, bool) or not isinstance(choice, int):
-                raise RuntimeError('replay misaligned: expected int decision')
+                raise ReplayDiverged('replay misaligned: expected int decision')
             self._record(choice, term == choice)
             return choice
         values: List[int] = []
@@ -343,7 +348,7 @@ class Ctx:
                     except Exception as e:  # noqa: BLE001 - outcomes
                         out = ('exc', e)
                     if len(self._decisions) < len(self._prefix):
-                        raise RuntimeError('replay misaligned: prefix not consumed')
+                        raise ReplayDiverged('replay misaligned: prefix not consumed')
                     self.stats.paths += 1
                     yield Path(self, self._decisions, out)
                 finally:
